@@ -110,6 +110,10 @@ pub fn check(txs: &[Transaction], rep: &TaxReport) -> Vec<Diff> {
         let got = hold.remove(tk).unwrap_or_default();
         if !got.close(&exp) {
             out.push(Diff { clause: "closing-holding", detail: format!("{tk}: closing holding {} but acquisitions minus disposals (rescaled) = {}", got, exp) });
+        } else if got != exp && exact_scope(days, rep, tk) {
+            // "equals": where every share count along the way is a finite decimal and no 30-day leg reaches across
+            // a split, decimal arithmetic has nothing to round, so the closing holding must be exact.
+            out.push(Diff { clause: "closing-holding-exact", detail: format!("{tk}: closing holding {} but acquisitions minus disposals (rescaled) = {} exactly (every intermediate share count is a finite decimal)", got, exp) });
         }
     }
     for (tk, q) in hold {
@@ -118,4 +122,32 @@ pub fn check(txs: &[Transaction], rep: &TaxReport) -> Vec<Diff> {
         }
     }
     out
+}
+
+/// Scope of the exactness clause: the running holding after every day is a finite decimal, and no 30-day leg of this
+/// security has a SPLIT/UNSPLIT between the disposal and its acquisition.
+fn exact_scope(days: &BTreeMap<NaiveDate, Day>, rep: &TaxReport, tk: &str) -> bool {
+    let mut run = Rat::zero();
+    for day in days.values() {
+        run = (&run + &(&day.b - &day.s)) * &day.ratio;
+        if !run.is_finite_decimal() {
+            return false;
+        }
+        let pre = &run / &day.ratio;
+        if !pre.is_finite_decimal() {
+            return false;
+        }
+    }
+    for y in &rep.tax_years {
+        for d in y.disposals.iter().filter(|d| d.ticker == tk) {
+            for m in &d.matches {
+                if let (Rule::Bnb, Some(e)) = (rule_of(&m.rule), m.acquisition_date) {
+                    if days.range(d.date..e).any(|(_, day)| day.ratio != Rat::one()) {
+                        return false;
+                    }
+                }
+            }
+        }
+    }
+    true
 }
